@@ -97,10 +97,10 @@ def _policy_sites(fb, f, depth=2):
     for c in f.calls():
         nm = c["callee"]["name"]
         if nm == "autoParameter":
-            ok, _ = e1.guarded_by(cfg, cfg.stmt_block(c), lambda facts: any("CONSTRAINTS_AUTO" in t and "==" in t and tr for t, tr, _ in facts))
+            ok, _ = e1.guarded_by(cfg, cfg.stmt_block(c), lambda facts: any("CONSTRAINTS_AUTO" in t and (("==" in t and tr) or ("!=" in t and tr is False)) for t, tr, _ in facts))
             out.append((c, "auto", ok))
         elif nm == "ignoreConstraints":
-            ok, _ = e1.guarded_by(cfg, cfg.stmt_block(c), lambda facts: any("CONSTRAINTS_IGNORE" in t and "==" in t and tr for t, tr, _ in facts))
+            ok, _ = e1.guarded_by(cfg, cfg.stmt_block(c), lambda facts: any("CONSTRAINTS_IGNORE" in t and (("==" in t and tr) or ("!=" in t and tr is False)) for t, tr, _ in facts))
             out.append((c, "ign", ok))
         elif depth > 0 and nm not in ("doInit", "doStep", "init", "step", "optimize") and ("obj" not in c or render(f.obj(c)) == "this"):
             for t in fb.targets(c, static_type_only=True):
@@ -128,6 +128,8 @@ def _d2(chk, fb, fns):
         okG = all(g for c, k, g in sites)
         if ok_order and okG:
             chk.proved("D2", init.key, "policy-before-doInit", init.loc(auto[0]), "parameters_ = params; policy applied; then doInit")
+        elif ok_order:
+            chk.unknown("D2", init.key, "policy-before-doInit", init.loc(auto[0]), "the policy is applied between the copy and doInit, but the test selecting autoParameter()/ignoreConstraints() is not in a recognised form")
         else:
             chk.refuted("D2", init.key, "policy-before-doInit", init.loc(), "init does not install the constraint policy on its own list before doInit evaluates the objective")
     else:
@@ -377,8 +379,18 @@ def _d6(chk, fb, fns):
                 while par is not None and par["k"] in ("ImplicitCastExpr", "ParenExpr", "ExprWithCleanups", "MaterializeTemporaryExpr"):
                     par = f.parent.get(par["id"])
                 construct = "helper-count:" + nm
+                # ... or held in a local first ('const unsigned int used = lineMinimization(..); nbEval_ += used;')
+                held = None
+                if par is not None and par["k"] == "DeclStmt":
+                    for d_ in par["decls"]:
+                        if d_.get("init") is not None and f.contains(d_["init"], c) and strip(d_["init"]) is strip(c):
+                            held = d_
                 if par is not None and par in adds:
                     chk.proved("D6", f.key, construct, f.loc(c), "nbEval_ += %s(...)" % nm)
+                elif held is not None and any(any(x["k"] == "DeclRefExpr" and x["decl"]["id"] == held["id"] for x in walk(kids(a)[1])) and e1.must_pass(cfg, {cfg.stmt_block(a)}, start=cfg.stmt_block(c))[0] for a in adds):
+                    chk.proved("D6", f.key, construct, f.loc(c), "the count is held in '%s' and added to nbEval_ on every path" % held["name"])
+                elif held is not None or (par is not None and par["k"] in ("BinaryOperator",) and par.get("op") == "="):
+                    chk.unknown("D6", f.key, construct, f.loc(c), "the count returned by %s is stored first; that it reaches nbEval_ on every path is not recognised" % nm)
                 else:
                     chk.refuted("D6", f.key, construct, f.loc(c), "the evaluation count returned by %s is not added to nbEval_: the budget test does not see the line search's evaluations" % nm, witness={"input": "a small evaluation budget"})
     chk.floor("D6", "nested optimiser runs / line-search helper calls", n, 8)
